@@ -10,7 +10,8 @@ for id in $ids; do
   git -C /repo apply $f
   bad=$(printf '%s\n' C01 C02 C03 C05 C06 C07 C08 C09 C10 C11 C12 C13 C14 C15 C16 C17 C18 C19 C20 | \
         xargs -P 16 -I{} sh -c 'timeout 300 python3 checks/run.py {} --tier quick >/dev/null 2>&1; rc=$?; [ $rc -ne 0 ] && echo " {}($rc)"' | sort | tr -d '\n')
-  echo "$id ->${bad:- all exit 0}"; [ -n "$bad" ] && fail=1
+  if [ -f /verif/benign/$id/undecided ] && ! echo "$bad" | grep -q "(1)"; then echo "$id -> undecided as recorded (exit 2 only):$bad"; else
+  echo "$id ->${bad:- all exit 0}"; [ -n "$bad" ] && fail=1; fi
   git -C /repo checkout -- .
 done
 git -C /verif checkout -- evidence 2>/dev/null
